@@ -56,65 +56,57 @@ func propagateMatchers(binOp *parser.BinaryExpr) {
 		return
 	}
 
-	lhMatchers := toMatcherMap(lhSelector)
-	rhMatchers := toMatcherMap(rhSelector)
-	union, hasDuplicates := makeUnion(lhMatchers, rhMatchers)
+	lhNames, lhLabels := splitMatchers(lhSelector.LabelMatchers)
+	rhNames, rhLabels := splitMatchers(rhSelector.LabelMatchers)
+	union, hasDuplicates := makeUnion(lhLabels, rhLabels)
 	if hasDuplicates {
 		return
 	}
 
-	finalMatchers := toSlice(union)
-	lhSelector.LabelMatchers = finalMatchers
-	rhSelector.LabelMatchers = finalMatchers
+	// Each side keeps its own metric name matchers and gets
+	// the label matchers of both sides.
+	lhSelector.LabelMatchers = append(lhNames, union...)
+	rhSelector.LabelMatchers = append(rhNames, union...)
 }
 
-func toSlice(union map[string]*labels.Matcher) []*labels.Matcher {
-	finalMatchers := make([]*labels.Matcher, 0, len(union))
-	for _, m := range union {
-		finalMatchers = append(finalMatchers, m)
-	}
-
-	sort.Slice(finalMatchers, func(i, j int) bool { return finalMatchers[i].Name < finalMatchers[j].Name })
-	return finalMatchers
-}
-
-func makeUnion(lhMatchers map[string]*labels.Matcher, rhMatchers map[string]*labels.Matcher) (map[string]*labels.Matcher, bool) {
-	union := make(map[string]*labels.Matcher)
-	for _, m := range lhMatchers {
+// splitMatchers separates the matchers on the metric name from the other matchers.
+func splitMatchers(matchers []*labels.Matcher) (names []*labels.Matcher, others []*labels.Matcher) {
+	for _, m := range matchers {
 		if m.Name == labels.MetricName {
-			continue
+			names = append(names, m)
+		} else {
+			others = append(others, m)
 		}
+	}
+	return names, others
+}
+
+// makeUnion returns all matchers of both sides sorted by label name. A matcher which
+// is present on both sides is reported as a duplicate.
+func makeUnion(lhMatchers []*labels.Matcher, rhMatchers []*labels.Matcher) ([]*labels.Matcher, bool) {
+	union := make([]*labels.Matcher, 0, len(lhMatchers)+len(rhMatchers))
+	for _, m := range lhMatchers {
 		if duplicateExists(rhMatchers, m) {
 			return nil, true
 		}
-		union[m.Name] = m
+		union = append(union, m)
 	}
-
 	for _, m := range rhMatchers {
-		if m.Name == labels.MetricName {
-			continue
-		}
 		if duplicateExists(lhMatchers, m) {
 			return nil, true
 		}
-		union[m.Name] = m
+		union = append(union, m)
 	}
+
+	sort.SliceStable(union, func(i, j int) bool { return union[i].Name < union[j].Name })
 	return union, false
 }
 
-func toMatcherMap(lhSelector *parser.VectorSelector) map[string]*labels.Matcher {
-	lhMatchers := make(map[string]*labels.Matcher)
-	for _, m := range lhSelector.LabelMatchers {
-		lhMatchers[m.Name] = m
+func duplicateExists(matchers []*labels.Matcher, matcher *labels.Matcher) bool {
+	for _, existing := range matchers {
+		if existing.String() == matcher.String() {
+			return true
+		}
 	}
-	return lhMatchers
-}
-
-func duplicateExists(matchers map[string]*labels.Matcher, matcher *labels.Matcher) bool {
-	existing, ok := matchers[matcher.Name]
-	if !ok {
-		return false
-	}
-
-	return existing.String() == matcher.String()
+	return false
 }
